@@ -29,7 +29,7 @@ var c19Packages = []string{
 
 func c19(r *Report) {
 	p := r.P
-	r.Explanation = "Static decision of panic- and hang-freedom conditions in the packages that parse untrusted input (" + fmt.Sprint(len(c19Packages)) + " packages, production files): every construct of eight panic-capable kinds is enumerated from the SSA form — D1 unchecked type assertion, D2 dereference of an optional (json omitempty) pointer field, D3 dereference of a result whose error was discarded, D4 use of a pointer/interface field that the package itself compares with nil elsewhere, D5 explicit panic, D6 dereference of the result of a function that can return (nil, nil), explicitly or by tolerating its callee's error, D7 a number decoded from input (json/protobuf field) used as a slice bound, index or allocation size without dominating lower- and upper-bound comparisons, D8 a slice converted to an array without a dominating test of its length — and each is either discharged by a recognised dominating guard (comma-ok assertion on the same access path, nil test on the same access path, value whose producers all return that concrete type), or is listed in the reviewed-safe table (one named construct + reason), or is reported. Termination: each resolver that follows references stored in untrusted documents keeps its fuel (depth gate before recursion, depth+1 passed), and the IBLT decode loop continues only after recording the peeled key in a set it refuses to revisit."
+	r.Explanation = "Static decision of panic- and hang-freedom conditions in the packages that parse untrusted input (" + fmt.Sprint(len(c19Packages)) + " packages, production files): every construct of ten panic-capable kinds is enumerated from the SSA form — D1 unchecked type assertion, D2 dereference of an optional (json omitempty) pointer field, D3 dereference of a result whose error was discarded, D4 use of a pointer/interface field that the package itself compares with nil elsewhere, D5 explicit panic, D6 dereference of the result of a function that can return (nil, nil), explicitly or by tolerating its callee's error, D7 a number decoded from input (json/protobuf field) used as a slice bound, index or allocation size without dominating lower- and upper-bound comparisons, D8 a slice converted to an array without a dominating test of its length, D9 a write into the map / dereference of the pointer of a comma-ok assertion or lookup whose ok is not established, D10 dereference of the result of a standard-library function that reports malformed input by a nil result (elliptic.Unmarshal*, pem.Decode, big.Int.SetString …) — and each is either discharged by a recognised dominating guard (comma-ok assertion on the same access path, nil test on the same access path, value whose producers all return that concrete type), or is listed in the reviewed-safe table (one named construct + reason), or is reported. Termination: each resolver that follows references stored in untrusted documents keeps its fuel (depth gate before recursion, depth+1 passed), and the IBLT decode loop continues only after recording the peeled key in a set it refuses to revisit."
 	r.NotDecided = []string{"index out of range and slice bounds in general", "integer conversions, memory exhaustion (e.g. gzip expansion of status lists)", "panics inside dependencies", "termination of loops other than the listed fuel checks", "nil results of calls whose error was checked but which may return (nil, nil)"}
 	r.Assumptions = []string{"net/http recovers panics in request goroutines; panics in background goroutines (network handlers, notifiers, discovery refresh) terminate the process", "go-did leaves optional pointer fields nil when absent"}
 
@@ -134,7 +134,7 @@ func c19Fixture(r *Report) {
 	for _, s := range sites {
 		got[s.Detector] = true
 	}
-	for _, d := range []string{"D1.unchecked-assertion", "D2.optional-pointer-deref", "D3.discarded-error-deref", "D4.nil-checked-elsewhere", "D5.explicit-panic", "D6.nil-nil-result-deref", "D7.input-number-as-bound", "D8.slice-to-array"} {
+	for _, d := range []string{"D1.unchecked-assertion", "D2.optional-pointer-deref", "D3.discarded-error-deref", "D4.nil-checked-elsewhere", "D5.explicit-panic", "D6.nil-nil-result-deref", "D7.input-number-as-bound", "D8.slice-to-array", "D9.zero-value-of-failed-comma-ok", "D10.nil-on-failure-result-deref"} {
 		if !got[d] {
 			r.Undecided("C19.fixture", rule, "", "detector "+d+" did not fire on the fixture")
 			return
@@ -159,6 +159,12 @@ func c19Fixture(r *Report) {
 			}
 		}
 	}
+	for _, s := range sites {
+		if (s.Detector == "D9.zero-value-of-failed-comma-ok" || s.Detector == "D10.nil-on-failure-result-deref") && strings.HasSuffix(s.Fn.Name(), "ok") {
+			r.Undecided("C19.fixture", rule, "", "precision control failed: the guarded variant "+s.Fn.Name()+" is reported by "+s.Detector)
+			return
+		}
+	}
 	if ok8Flagged || n8 != 1 {
 		r.Undecided("C19.fixture", rule, "", fmt.Sprintf("D8 precision control failed: %d D8 sites, guarded site flagged=%v", n8, ok8Flagged))
 		return
@@ -167,7 +173,7 @@ func c19Fixture(r *Report) {
 		r.Undecided("C19.fixture", rule, "", fmt.Sprintf("D7 precision control failed: %d D7 sites, guarded site flagged=%v", n7, okFlagged))
 		return
 	}
-	r.OK("C19.fixture", rule, "", fmt.Sprintf("%d fixture sites reported by all eight detectors; the guarded D7 variant is not reported", len(sites)), false)
+	r.OK("C19.fixture", rule, "", fmt.Sprintf("%d fixture sites reported by all ten detectors; the guarded D7 variant is not reported", len(sites)), false)
 }
 
 // c19DecodeFuel: in Iblt.Decode every assignment `updated = true` (which is what lets the unbounded loop continue) is
